@@ -75,7 +75,7 @@ def run(ctx):
         pb, opts, desc = S["pb"], S["opts"], S["desc"]
         if S["raised"] is not None:
             must_raise = S["first"] > S["budget"]
-            if not must_raise and S["inj_kind"] != "neg-inf":
+            if not must_raise and S["inj_kind"] != "neg-inf" and not (opts.get("max_prior_samples") or 0) > pb.N:
                 key = classify_exception(S["raised"], opts)
                 ctx.exception(S["raised"], "iterative_rejection_sample(return_logprobs=True)", desc, key=key)
             continue
